@@ -73,6 +73,26 @@ EXTRA_PARENTS = {
     'cryptography.InvalidSignature': 'Exception',
     'cryptography.UnsupportedAlgorithm': 'Exception',
     'yaml.YAMLError': 'Exception',
+    # standard-library exception classes a handler can name (none of them is raised by what the library model says the calls raise,
+    # unless listed there: ip_address()/ip_network() raise plain ValueError, not these)
+    'ipaddress.AddressValueError': 'ValueError',
+    'ipaddress.NetmaskValueError': 'ValueError',
+    'binascii.Error': 'ValueError',
+    'binascii.Incomplete': 'Exception',
+    'json.JSONDecodeError': 'ValueError',
+    'subprocess.CalledProcessError': 'Exception',
+    'subprocess.TimeoutExpired': 'Exception',
+    'queue.Empty': 'Exception',
+    'queue.Full': 'Exception',
+    'socket.error': 'OSError',
+    'select.error': 'OSError',
+    'ctypes.ArgumentError': 'Exception',
+    'argparse.ArgumentError': 'Exception',
+    'argparse.ArgumentTypeError': 'Exception',
+    'decimal.InvalidOperation': 'ArithmeticError',
+    'asyncio.TimeoutError': 'Exception',
+    'asyncio.CancelledError': 'BaseException',
+    'concurrent.TimeoutError': 'Exception',
 }
 
 
